@@ -39,6 +39,20 @@ def replyOp (args : List String) : String :=
       let r := Reply.mk pyClasses code msg
       s!"msg={showText (Reply.getMessage r)} esc={showText (Reply.getEsc r)}"
     | _, _ => "bad-op"
+  | ["objseq", ops] =>
+    -- c:<codepoints> = assign code, m:<codepoints> = assign message, x = enhanced_status_code = False
+    let step (r : Option Reply.R) (w : String) : Option Reply.R :=
+      match r with
+      | none => none
+      | some r =>
+        if w == "x" then some (Reply.escOff r)
+        else match w.splitOn ":" with
+          | ["c", t] => (parseText t).map (Reply.setCode r)
+          | ["m", t] => (parseText t).map fun m => Reply.setMessage pyClasses r (some m)
+          | _ => none
+    match (ops.splitOn ";").foldl step (some { code := none, msg := none, esc := .none }) with
+    | some r => s!"msg={showText (Reply.getMessage r)} esc={showText (Reply.getEsc r)}"
+    | none => "bad-op"
   | _ => "bad-op"
 
 end Slimta.Driver
